@@ -186,3 +186,74 @@ Example C09_molecule_ex :   (* three reverse-strand MNase fragments of one cut, 
   chic_mol_ds 2 (chic_frag_sites c (map (mirror 5000) rs)) = [3998; 3998; 3998].
 Proof. vm_compute. repeat split. Qed.
 Print Assumptions C09_molecule_ex.
+
+(* CHICFragment as constructed (chic_fragment_h = homopolymer filter of Fragment.__init__ + identify_site):
+   the filter tests the GENERATED nucleotide list nuc_stretch_bases with the GENERATED length
+   chic_max_nuc_stretch; it is strand symmetric (a run of X on one strand is a run of comp X on the other),
+   so validity and the qcfail verdict mirror together with the site *)
+Theorem C09_homopolymer_filter_symmetric : forall n s,
+  homopolymer n nuc_stretch_bases (revcomp s) = homopolymer n nuc_stretch_bases s.
+Proof. exact (fun n s => homopolymer_revcomp n nuc_stretch_bases s bases_closed). Qed.
+Print Assumptions C09_homopolymer_filter_symmetric.
+
+Theorem C09_chic_mirror_filtered : forall c L r pre r2 seqs, r_unmapped r = false -> r_cigar r <> [] ->
+  forget_rr (chic_fragment_h c pre (Some (mirror L r)) (mirror_r2 r2) (map revcomp seqs)) =
+  mirror_result L 1 (chic_fragment_h c pre (Some r) r2 seqs).
+Proof. exact chic_mirror_h. Qed.
+Print Assumptions C09_chic_mirror_filtered.
+
+Theorem C09_chic_site_filtered : forall c cycles mid x reverse clip tail trimmed mx pre r2 seqs,
+  good_mid mid = true -> mx_trimmed mx = trimmed -> (c_nocigar c = false \/ clip = 0) ->
+  r2_ok reverse r2 = true -> any_homopolymer seqs = false ->
+  chic_fragment_h c pre (Some (simulate_chic cycles mid x reverse clip tail trimmed mx)) r2 seqs =
+  Done (site_obs (if reverse then x + 1 else x - 1) (xorb reverse (c_invert c)) (xorb reverse (c_invert c)) None pre).
+Proof. exact chic_site_h. Qed.
+Print Assumptions C09_chic_site_filtered.
+
+Theorem C09_chic_homopolymer_rejected : forall c pre r1 r2 seqs o, any_homopolymer seqs = true ->
+  chic_fragment_h c pre r1 r2 seqs = Done o -> o_valid o = false /\ o_qcfail o = true.
+Proof. exact chic_homopolymer_invalid. Qed.
+Print Assumptions C09_chic_homopolymer_rejected.
+
+Example C09_homopolymer_ex :   (* 18 T in the read: rejected, and so is its mirror image (18 A); 17 T pass *)
+  let t18 := 71 :: repeat 84 18 ++ [67] in
+  let t17 := 71 :: repeat 84 17 ++ [67] in
+  any_homopolymer [t18] = true /\ any_homopolymer [revcomp t18] = true /\ any_homopolymer [t17] = false /\
+  chic_fragment_h (mkCfg false true false false) false (Some (mkRead 1000 [(0, 20)] false t18 false None)) None [t18] =
+  Done (mkObs (Some 999) (Some false) None (Some s_HomoPolymer) true false (Some 999) (Some false)).
+Proof. vm_compute. repeat split. Qed.
+Print Assumptions C09_homopolymer_ex.
+
+(* every configuration, including no_umi_cigar_processing (which switches the clip correction off by
+   design): the site is the cut shifted by clip_shift = 0 with clip processing, +clip (forward) / -clip
+   (reverse) without it.  These are the statements the command-line stream is checked against. *)
+Theorem C09_nla_site_any_config : forall c cycles mid p reverse clip tail pre,
+  good_mid mid = true -> py_prefix 4 cycles = CATG ->
+  nla_fragment c true pre (Some (simulate_nla cycles mid p reverse clip tail false)) =
+  Done (site_obs (p + clip_shift c reverse clip) (xorb reverse (c_invert c)) reverse (Some CATG) pre).
+Proof. exact nla_site_any. Qed.
+Print Assumptions C09_nla_site_any_config.
+
+Theorem C09_nla_shift_any_config : forall c cycles mid p reverse clip tail pre,
+  good_mid mid = true -> c_check_motif c = true -> c_allow_shift c = true ->
+  py_prefix 4 cycles = CATG ->
+  nla_fragment c true pre (Some (simulate_nla cycles mid p reverse clip tail true)) =
+  Done (site_obs (p + clip_shift c reverse clip) (xorb reverse (c_invert c)) reverse (Some (if reverse then CAT else ATG)) pre).
+Proof. exact nla_shift_any. Qed.
+Print Assumptions C09_nla_shift_any_config.
+
+Theorem C09_chic_site_any_config : forall c cycles mid x reverse clip tail trimmed mx pre r2 seqs,
+  good_mid mid = true -> mx_trimmed mx = trimmed -> r2_ok reverse r2 = true -> any_homopolymer seqs = false ->
+  chic_fragment_h c pre (Some (simulate_chic cycles mid x reverse clip tail trimmed mx)) r2 seqs =
+  Done (site_obs ((if reverse then x + 1 else x - 1) + clip_shift c reverse clip)
+                 (xorb reverse (c_invert c)) (xorb reverse (c_invert c)) None pre).
+Proof. exact chic_site_any_h. Qed.
+Print Assumptions C09_chic_site_any_config.
+
+Example C09_nocigar_ex :   (* --no_umi_cigar_processing, 2 clipped cycles: the CHIC site moves by 2 *)
+  clip_shift (mkCfg true true false false) false 2 = 2 /\
+  chic_fragment_h (mkCfg true true false false) false
+     (Some (simulate_chic [84; 65; 67; 71; 71; 65; 67; 84] [(0, 6)] 1000 false 2 0 false None)) None [] =
+  Done (mkObs (Some 1001) (Some false) None None false true (Some 1001) (Some false)).
+Proof. vm_compute. repeat split. Qed.
+Print Assumptions C09_nocigar_ex.
